@@ -71,7 +71,7 @@ func GetShortFieldID(
 
 		v, err := strconv.ParseUint(string(value), 10, 0)
 		if err != nil {
-			return 0, err
+			return 0, errors.Join(err, iter.Close())
 		}
 		sID := uint32(v)
 
